@@ -22,7 +22,7 @@
              'decreases': 'n'}],
  'ghost_calls': ['C08_IDX'],
  'assumptions': ['strncpy: src is an object of ss bytes that is NUL-terminated (last byte) or has ss >= n; dst and src are distinct objects (ISO: no overlap)'],
- 'params': {'C08_FIXOFF': [0, 3]},
+ 'params': {'C08_FIXOFF': [0]}, 'params_thorough': {'C08_FIXOFF': [0, 3]},
  'witness': {'unwind': 8},
 } @*/
 #include "c08_harness.h"
